@@ -17,6 +17,8 @@ Family ustr: one value of every built-in type, classes, exceptions with
 import abc
 import enum
 import itertools
+from decimal import Decimal
+from fractions import Fraction
 
 from ..core import HarnessFault
 from ..core import Res
@@ -328,6 +330,17 @@ def value_table():
         ('int', 42, '42'), ('negint', -7, '-7'), ('bigint', 10 ** 30, None),
         ('float', 1.5, '1.5'), ('complex', 1 + 2j, None), ('true', True,
                                                            'True'),
+        # numbers whose string form is long
+        ('float-sum', 0.1 + 0.2, None), ('float-third', 1 / 3, None),
+        ('float-13', 12345.67890123, None), ('float-1e15', 1e15, None),
+        ('float-1e12', 1000000000000.0, None), ('float-1e16', 1e16, None),
+        ('float-time', 1727654400.123456, None), ('float-tiny', 1.5e-07,
+                                                  None),
+        ('float-negzero', -0.0, None), ('float-inf', float('inf'), None),
+        ('float-nan', float('nan'), None), ('int-20', 12345678901234567890,
+                                            None),
+        ('decimal', Decimal('1234567.8901234567890123'), None),
+        ('fraction', Fraction(1, 3), None),
         ('none', None, 'None'), ('list', [1, 'a'], None),
         ('tuple', (1, 2), None), ('dict', {'a': 1}, None),
         ('set', {1}, None), ('frozenset', frozenset([1]), None),
